@@ -28,6 +28,7 @@ BUILTIN_EXC = {
     'ValueError': ['Exception'], 'UnicodeError': ['ValueError'], 'UnicodeDecodeError': ['UnicodeError'],
     'UnicodeEncodeError': ['UnicodeError'], 'BufferError': ['Exception'], 'EOFError': ['Exception'],
     'StructError': ['Exception'],          # struct.error
+    'Unmodelled': ['BaseException'],       # pseudo-exception: a path the executor cannot model; must be proved infeasible
     'ForeignError': ['Exception'],         # any other Exception subclass (zlib.error, user stream errors, ...)
 }
 ALIASES = {'IOError': 'OSError', 'EnvironmentError': 'OSError'}
